@@ -30,7 +30,10 @@ class C19(Prop):
         "engine has not taken producer p out of ROLLBACK/FIREABLE/RUNNING, any number of recoveries synchronising with any "
         "request sets in any order roll p back at most once, and not at all if p is already recovering; (2) no deadlock -- "
         "locks taken in one global order make the wait-for relation strictly rank-increasing, hence acyclic, for any number "
-        "of recoveries and lock sets, and the maximal-rank recovery is never blocked. Tied to /repo by driving the real "
+        "of recoveries and lock sets, and the maximal-rank recovery is never blocked; (3) delivery, partial -- on the "
+        "InterWorkflowPort model of C03 (imported), an attachment (PROPAGATE, boundary tag g) made before the regenerated "
+        "token is put receives it, and one made after the token entered the port's history receives it at once, for every "
+        "operation history. Tied to /repo by driving the real "
         "_synchronize_workflows/is_recovering/_update_request through generated histories interleaved with scheduler status "
         "changes (all Status values) and comparing every attach/update/refuse decision with the model, and by engine runs "
         "in which 2..6 jobs of a diamond or scatter fail at the same moment after one loss of all data, under seeded "
@@ -41,8 +44,8 @@ class C19(Prop):
         "under hash collisions (13-wide scatters under PYTHONHASHSEED=0 showed no flip), so no opposite acquisition orders "
         "and no deadlock materialise in engine runs.")
     LEVEL_NOTE = (
-        "Partial: the delivery clause (attached recoveries receive the regenerated tokens through InterWorkflowPort "
-        "boundary rules) is not proved, only exercised by the engine runs; the lock model abstracts a critical section to "
+        "Partial: delivery is proved at the port level only (that the attached workflow consumes the token and terminates, "
+        "that the tags agree and that the producer does put the token are exercised by the engine runs); the lock model abstracts a critical section to "
         "one terminating step (its liveness relies on the executor, C04); the once-per-loss theorem needs the window "
         "hypothesis, and the real engine violates the text outside it (a recovery that built its provenance graph while p was "
         "lost but synchronises after p finished rolls p back again: known finding). Trusted: Coq kernel + vm_compute, "
@@ -54,7 +57,8 @@ class C19(Prop):
             "(width 2..6) of file jobs, all branch jobs fail their first attempt at a barrier at which the whole working "
             "directory is lost, the producer's re-execution is held until all recoveries synchronised (the window of the "
             "theorem) -- `held`: before its command completes, `heldout`: between the end of its command and the collection "
-            "of its outputs, the other jobs failing only once it is there; seeded permuting loop; free: the same without the "
+            "of its outputs, `heldfire`: after it was re-scheduled (allocation FIREABLE) and before it runs (in its input "
+            "transfer), the other jobs failing only once it is there; seeded permuting loop; free: the same without the "
             "hold; stall (corpus): the producer's output collection is merely slow. Non-trivial = at least 2 synchronisations. "
             "Distinct = distinct canonical JSON.")
     TRUSTED = ("model: RecSync/Model.v (is_recovering status set, _synchronize_workflows decisions, lock order) is hand-written",
@@ -65,7 +69,7 @@ class C19(Prop):
                    "id() order of the request objects is a fixed total order during a run",
                    "delivery of regenerated tokens to attached recovery workflows is exercised, not proved")
     MAX_WORKERS = 8
-    CASE_TIMEOUT = 60
+    CASE_TIMEOUT = 200
     SHARD_TIMEOUT = 900
     COQ_SHARD = 60
 
@@ -87,10 +91,14 @@ class C19(Prop):
             # all jobs but the first fail only then, so that their recoveries synchronise inside that window
             c["late"] = branches(shape)[1:]
             c["hold"] = {"job": producers(shape)[0], "attempt": 2, "syncs": k, "point": "output"}
+        if mode == "heldfire":
+            # ... held after it was re-scheduled (allocation FIREABLE) and before it runs: in its input transfer
+            c["late"] = branches(shape)[1:]
+            c["hold"] = {"job": producers(shape)[0], "attempt": 2, "syncs": k, "point": "transfer"}
         return c
 
     def gen(self, rng, tier):
-        nh, ne, nf = {"quick": (200, 26, 4), "thorough": (2500, 300, 12), "extended": (600, 100, 20)}[tier]
+        nh, ne, nf = {"quick": (200, 27, 4), "thorough": (2500, 300, 12), "extended": (600, 100, 20)}[tier]
         cases = []
         for _ in range(nh):
             names = [f"/s{i}/0" for i in range(rng.randrange(1, 5))]
@@ -103,7 +111,7 @@ class C19(Prop):
                     evs.append(["set", rng.choice(names), rng.choice(REC + NOREC)])
             cases.append({"f": "rhist", "limit": lim, "events": evs})
         for i in range(ne):
-            cases.append(self._engine_case(rng, "held" if i % 2 == 0 else "heldout"))
+            cases.append(self._engine_case(rng, ("held", "heldout", "heldfire")[i % 3]))
         for _ in range(nf):
             cases.append(self._engine_case(rng, "free"))
         return cases
